@@ -43,6 +43,24 @@ def _loose(name: str) -> str:
     return " ".join(out.split()).upper()
 
 
+def _san(name: str) -> str:
+    """The statement's view of sanitising, used to decide whether two siblings could end up with the same name: every
+    character outside word characters, space, '-', '.', '#' may be replaced by a blank; runs of blanks are folded (conservative).
+    '-' and ' ' stay distinct, so 'PAD-L' and 'PAD L' are different names."""
+    out = "".join(c if (c.isalnum() or c in "_-.# ") else " " for c in name)
+    return " ".join(out.split()).upper().rstrip(" .")          # a component may not end in a blank or a dot
+
+
+def _as_exported(name: str) -> str:
+    """The name roughly as a sanitiser may leave it (unsafe characters blanked, no trailing blank or dot): only used to
+    find siblings that *could* turn into a half of a pair."""
+    return "".join(c if (c.isalnum() or c in "_-.# ") else " " for c in name).rstrip(" .")
+
+
+def _split_any(name: str):
+    return lr_split(name) or lr_split(name.rstrip(" .")) or lr_split(_as_exported(name))
+
+
 def owner_of(channel: bytes, refs: List[namesim.SampleRef]) -> Optional[namesim.SampleRef]:
     # a channel may hold the complete audio (possibly padded) or, for the longer half of an unequal pair, a prefix of it
     best = None
@@ -90,10 +108,20 @@ def run(sc: dict) -> RunResult:
             for r, sp in splits:
                 if r is l or r is rr:
                     continue
-                if _loose(r.name) in (_loose(l.name), _loose(rr.name), _loose(stem)):
+                if _san(r.name) in (_san(l.name), _san(rr.name), _san(stem)):
                     amb = True
-                if sp and _loose(sp[0]) == _loose(stem):
-                    amb = True
+                sp = sp or _split_any(r.name)      # 'KICK L.' is exported as 'KICK L', 'KICK +L' perhaps as 'KICK  L'
+                if sp and _san(sp[0]) == _san(stem):
+                    other_side = "R" if sp[2] == "L" else "L"
+                    has_partner = False
+                    for x in rs:
+                        xs = _split_any(x.name)
+                        if x is not r and xs and _san(xs[0]) == _san(sp[0]) and xs[1] == sp[1] and xs[2] == other_side:
+                            has_partner = True
+                    if has_partner or (_san(sp[0] + sp[1]) == _san(stem + sep)):
+                        # another complete pair of the same stem (its merged name collides with ours), or the same
+                        # stem + separator again after sanitising
+                        amb = True
             if any(_loose(r.name) == _loose(stem) for r in rs if r is not l and r is not rr):
                 res.probes["stem_equals_sibling"] += 1
             if _loose(stem) == "" or stem != stem.strip():
@@ -103,7 +131,7 @@ def run(sc: dict) -> RunResult:
             if component_ok(stem) is not None or "(" in stem or ")" in stem:
                 amb = True
             for on in obs.siblings.get(d, []):
-                if _loose(on) in (_loose(l.name), _loose(rr.name), _loose(stem)):
+                if _san(on) in (_san(l.name), _san(rr.name), _san(stem)):
                     amb = True
             if amb:
                 res.probes["pair_ambiguous"] += 1
